@@ -208,6 +208,14 @@ package scheduler
 //@     requires #C18.no-inclusion-cycle !(stage.Name in stage.Pipeline.nodes && stage.Pipeline.nodes[stage.Name] == stage)
 //@     assume stage.Status == old(stage.Status) // the nested run writes only the statuses of the included pipeline's own nodes, and this stage is not one of them (the obligation above)
 
+// C12 (safety half): cancelling a scheduler raises the flag the scheduling loop polls and cancels the runner;
+// nothing here can crash, and no lock is involved
+//@ func (*Scheduler).Cancel
+//@   inline
+//@   requires s != nil && s.taskRunner != nil
+//@   modifies *
+//@   ensures #C12.flag-raised s.cancelled == 1
+
 //@ func NewExecutionGraph
 //@   requires forall i int :: 0 <= i && i < len(stages) ==> stages[i] != nil
 //@   modifies nothing
